@@ -75,9 +75,24 @@ var tinfoMap sync.Map // map[reflect.Type]*typeInfo
 // getTypeInfo returns the typeInfo structure with details necessary
 // for marshaling and unmarshaling typ.
 func getTypeInfo(typ fakereflect.TypeAndCanAddr) (*typeInfo, error) {
+	return getTypeInfoRec(typ, nil)
+}
+
+// getTypeInfoRec is getTypeInfo with the set of types whose information is
+// being computed. A struct can embed itself through a pointer; the fields of
+// the embedded struct are not added again when we get back to it.
+func getTypeInfoRec(typ fakereflect.TypeAndCanAddr, visiting map[fakereflect.TypeAndCanAddr]struct{}) (*typeInfo, error) {
 	if ti, ok := tinfoMap.Load(typ); ok {
 		return ti.(*typeInfo), nil
 	}
+	if _, ok := visiting[typ]; ok {
+		return &typeInfo{}, nil
+	}
+	if visiting == nil {
+		visiting = map[fakereflect.TypeAndCanAddr]struct{}{}
+	}
+	visiting[typ] = struct{}{}
+	defer delete(visiting, typ)
 
 	tinfo := &typeInfo{}
 	if typ.IsStruct() && !typeutil.IsTypeWithName(typ.Type, "encoding/xml.Name") {
@@ -95,7 +110,7 @@ func getTypeInfo(typ fakereflect.TypeAndCanAddr) (*typeInfo, error) {
 					t = t.Elem()
 				}
 				if t.IsStruct() {
-					inner, err := getTypeInfo(t)
+					inner, err := getTypeInfoRec(t, visiting)
 					if err != nil {
 						return nil, err
 					}
